@@ -16,6 +16,11 @@ server); the delivery that completes the version line may carry the packets that
 follow it; and either side may put cleartext IGNORE/DEBUG messages with line-like
 content behind its KEXINIT (RFC 4253 7.1 allows them during key exchange).
 
+The connection's later life is varied too: either side may start further key exchanges (sendKexInit) at any moment of the
+payload phase - also both at once, also with payloads handed over while one is in progress - and in the clean family a re-key
+may move the connection to another cipher/MAC/compression; and the application may make calls the transport refuses
+(sendPacket with arguments no packet can be built from) in between the proper ones and carry on.
+
 Oracle: without tampering the payloads dispatched to each side's service are
 exactly the payloads the other side sent, in order; with tampering the receiver
 disconnects (after having received at most the claimed packet length) and the
@@ -45,13 +50,13 @@ ENGINE = "net"
 LEVEL = "exploration"
 TECHNIQUE = ("deterministic simulation: real SSH client/server transports over a simulated link, real key exchange, "
              "seeded cipher/MAC/compression configuration, payloads, segmentation and single-byte tampering; reference = list of payloads sent")
-QUICK_RUNS = 20000
+QUICK_RUNS = 16000
 TWIN_P = 0.08   # this share of the runs drives two independent instances of the scenario one after the other (detsim.runner._run_scenario)
 BATCH = 60
 RUN_WALL_LIMIT_S = 30
 COMPONENTS = {
     "real": ["twisted.conch.ssh.transport.SSHServerTransport", "twisted.conch.ssh.transport.SSHClientTransport",
-             "SSHTransportBase.dataReceived/getPacket/sendPacket/_newKeys/dispatchMessage", "SSHCiphers (cryptography backend)",
+             "SSHTransportBase.dataReceived/getPacket/sendPacket/sendKexInit/_newKeys/dispatchMessage", "SSHCiphers (cryptography backend)",
              "real curve25519-sha256 key exchange with an Ed25519 host key (fixtures/ssh_host_ed25519_key)"],
     "stub": ["TCP connection: detsim.net.Link (segmentation, tampering)", "SSHService (records packetReceived)",
              "server factory (host keys only)", "verifyHostKey (accepts; optionally asynchronously)",
@@ -61,7 +66,13 @@ RULE = ("run = one cipher x MAC x compression choice, 0..3 banner lines before t
         "version marker 'SSH-' mid-line, or a near-miss line start), default or tape-built version strings on both sides, 0..3 cleartext "
         "IGNORE/DEBUG messages with line-like content sent during the initial key exchange, real KEX, 1..8 service payloads "
         "(0 B..40 KiB) in both directions, tape-chosen segmentation of both streams (the delivery completing the server's version line may "
-        "carry following packet bytes); tamper family: one byte of one post-NEWKEYS packet altered; "
+        "carry following packet bytes); 0..3 further key exchanges started by either side (sendKexInit) during the payload phase, possibly by "
+        "both at once, with the same algorithms or (clean family, link drained first) a freshly drawn cipher/MAC/compression set on both ends; "
+        "0..2 refused sendPacket calls (str or None payload, message number outside 0..255) caught by the application, which then carries on; "
+        "tamper family: one byte of one post-NEWKEYS packet altered (with re-keys also packets of a later key exchange or behind it); "
+        "knob async_verify_before_rekey (90% of the runs): only then may the host-key answer be outstanding in a key exchange that is "
+        "followed by another one - the precondition of the finding 'client keeps _gotNewKeys set across key exchanges', repaired in /repo "
+        "(witness suffix +rekey-after-newkeys-overtook-host-key-answer); "
         "non-trivial = key exchange completed, at least one payload was dispatched, the wire was cut at least once and (clean family or the tamper was applied)")
 ASSUMPTIONS = [
     "only the server sends identification lines before its version string (RFC 4253 4.2); banner lines never START with 'SSH-' "
@@ -72,6 +83,13 @@ ASSUMPTIONS = [
     "version strings are 'SSH-2.0-' (server also 'SSH-1.99-') + printable software version without '-'/space + optional comment; "
     "they are not checked against RFC 4253's 255-byte limit (all are shorter)",
     "a transport that called loseConnection() is not fed further input (what a real TCP transport does: stopReading)",
+    "a further key exchange is started (sendKexInit) only by a side whose previous one is complete (anything else is refused with "
+    "RuntimeError by contract); IGNORE traffic is sent only outside key exchanges; the supported* lists are changed only on both ends "
+    "together while nothing is in flight",
+    "a refused call is one that cannot be made into a packet: payload of type str/None, message number outside a byte; while a key "
+    "exchange is in progress it is made with a message type that is sent straight away (IGNORE/DEBUG) - other types are put aside "
+    "unseen until the key exchange ends, so there is no call-time refusal to speak of.  No verdict on the refused call itself; it is "
+    "not a payload sent, and everything sent before and after it must arrive",
     "in the tamper family 'disconnect' is demanded once the receiver got at least 1 MiB + the packet (a length field altered upwards "
     "makes any implementation wait for that many bytes)",
 ]
@@ -95,11 +113,13 @@ NOISE_TOKENS = (b"x", b"\n", b"\r\n", b"SSH-", b"SSH-2.0-", b"\r", b" ", b"-", b
 
 FILLER = random.Random(35).randbytes(60000)     # fixed, incompressible keep-talking traffic for the tamper family
 
-# dev-time: VERIF_C35_AVOID=1 keeps every run away from the preconditions of the identification findings (a delivery ending exactly at
-# a banner line end - fixed in /repo; a version line split behind a banner line that mentions "SSH-"; a cleartext packet with a line
-# starting with "SSH-" in the delivery that completes the version line) so that mutant runs see past them.  Without it about 10% of the
-# runs that could meet such a precondition are allowed to.
-ALWAYS_AVOID = os.environ.get("VERIF_C35_AVOID", "0") == "1"
+# Knobs that keep a run away from the preconditions of the findings this module met (all repaired in /repo): a delivery ending
+# exactly at a banner line end; a version line split behind a banner line that mentions "SSH-"; a cleartext packet with a line starting
+# with "SSH-" in the delivery that completes the version line; a host-key answer outstanding when the server's NEWKEYS arrives in a key
+# exchange that is followed by another one.  Each run draws them: about 10% of the runs that could meet such a precondition stay away
+# from it.  ALWAYS_AVOID = True (edit in a scratch copy, dev-time only) keeps every run away, so that a mutant is not answered for by them.
+ALWAYS_AVOID = False
+ASYNC_VERIFY_BEFORE_REKEY_P = 0.9
 
 
 class Factory:
@@ -127,6 +147,8 @@ class Recorder(service.SSHService):
     def packetReceived(self, messageNum, payload):
         self.got.append((messageNum, payload))
         self.sim.event(self.who, "dispatch", messageNum, len(payload))
+        if self.transport.newkeys_count > 1:
+            self.sim.probe("payload_dispatched_after_rekey")
 
 
 class _Observe:
@@ -135,6 +157,7 @@ class _Observe:
     def _init_obs(self):
         self.wire = []              # (write index, messageType, payload length, payload) per packet put on the wire
         self.newkeys_at = None      # index into transport.writes of the first packet protected by the new keys
+        self.newkeys_count = 0      # completed key exchanges (1 = the initial one, more = re-keys)
 
     def sendPacket(self, messageType, payload):
         t = self.transport
@@ -146,6 +169,9 @@ class _Observe:
     def _newKeys(self):
         if self.newkeys_at is None:
             self.newkeys_at = len(self.transport.writes)
+        self.newkeys_count += 1
+        if self.newkeys_count > 1:
+            self.h.sim.probe("rekey_completed")
         return super()._newKeys()
 
 
@@ -161,6 +187,13 @@ class Client(_Observe, transport.SSHClientTransport):
     def connectionSecure(self):
         self.secure = True
 
+    def ssh_NEWKEYS(self, packet):
+        # observation only: the server's NEWKEYS arrived while the application's answer about the host key was outstanding
+        if self.h.pending_verify is not None:
+            self.h.newkeys_overtook_verify = True
+            self.h.sim.probe("newkeys_arrived_before_host_key_answer")
+        return super().ssh_NEWKEYS(packet)
+
 
 class Server(_Observe, transport.SSHServerTransport):
     def __init__(self, h):
@@ -173,9 +206,18 @@ class Harness:
         self.sim = sim
         self.pending_verify = None
         self.async_verify = False
+        self.rekeys_left = 0
+        self.async_before_rekey = True
+        self.newkeys_overtook_verify = False
+        self.rekey_after_overtaken_verify = False
 
     def verify_host_key(self):
         if not self.async_verify:
+            return defer.succeed(True)
+        if self.rekeys_left and not self.async_before_rekey:
+            # keeps the run away from the precondition of the re-key finding (see RULE): an answer that is still outstanding when
+            # the server's NEWKEYS arrives, in a key exchange that is not the connection's last one
+            self.sim.probe("async_verification_before_rekey_avoided")
             return defer.succeed(True)
         self.sim.probe("async_host_key_verification")
         self.pending_verify = defer.Deferred()
@@ -201,10 +243,21 @@ def run(sim):
     # the two knobs below keep most runs away from the preconditions of the version-line findings (see ident_verdict)
     allow_marker_split = sim.draw_bool(0.9, "allow_marker_split") and not ALWAYS_AVOID
     allow_marker_line_noise = sim.draw_bool(0.9, "allow_marker_line_noise") and not ALWAYS_AVOID
+    # the connection's later life: further key exchanges started by either side at any moment (RFC 4253 section 9), which in the clean
+    # family may move the connection to another cipher/MAC/compression, and calls the transport refuses (arguments no packet can be
+    # built from) made by the application in between the proper ones
+    nrekey = sim.draw_weighted([(0, 4), (1, 3), (2, 2), (3, 1)], "rekeys")
+    renegotiate = sim.draw_bool(0.3, "renegotiate") and family == "clean" and nrekey > 0
+    nrefuse = sim.draw_weighted([(0, 5), (1, 3), (2, 2)], "refused_calls")
+    nsend += nrekey                     # something is left to say after a re-key
+    h.rekeys_left = nrekey
+    h.async_before_rekey = sim.draw_bool(ASYNC_VERIFY_BEFORE_REKEY_P, "async_verify_before_rekey") and not ALWAYS_AVOID
     sim.config = {"cipher": cipher.decode(), "mac": mac.decode(), "compression": comp.decode(), "family": family, "banner_lines": nbanner,
                   "avoid_banner_split": avoid_banner_split, "async_verify": h.async_verify, "early_send": early_send,
                   "segmentation": seg, "nsend": nsend, "banner_style": banner_style, "own_version_strings": own_versions,
-                  "early_noise": nnoise, "allow_marker_split": allow_marker_split, "allow_marker_line_noise": allow_marker_line_noise}
+                  "early_noise": nnoise, "allow_marker_split": allow_marker_split, "allow_marker_line_noise": allow_marker_line_noise,
+                  "rekeys": nrekey, "renegotiate": renegotiate, "refused_calls": nrefuse,
+                  "async_verify_before_rekey": h.async_before_rekey}
     amounts = {"mixed": (None, 1000, 64, 17, 8, 5, 3, 2, 1), "whole": (None,), "tiny": (8, 5, 3, 2, 1, 17), "big": (None, 1000, 300, 64)}[seg]
 
     client, server = Client(h), Server(h)
@@ -336,7 +389,8 @@ def run(sim):
         tam = {"want": family == "tamper", "done": False}
         if tam["want"]:
             tam["dir"] = sim.draw_choice(["C", "S"], "tamper_sender")
-            tam["index"] = sim.draw_weighted([(0, 5), (1, 4), (2, 2), (3, 1), (5, 1)], "tamper_packet")
+            # (with re-keys the later packets include those of a key exchange run under the old keys and the first ones under the new keys)
+            tam["index"] = sim.draw_weighted([(0, 5), (1, 4), (2, 2), (3, 1), (5, 1)] + ([(8, 2), (13, 1)] if nrekey else []), "tamper_packet")
 
         def maybe_tamper():
             if not tam["want"] or tam["done"]:
@@ -457,16 +511,34 @@ def run(sim):
                 return True
             return p.newkeys_at is not None and p._keyExchangeState == p._KEY_EXCHANGE_NONE
 
+        def alive(s):
+            return not (tr[s].disconnecting or tr[s].disconnected or link.a.disconnecting or link.b.disconnecting)
+
+        def established(s):
+            # the side's initial key exchange is over and it is not in the middle of another one
+            return proto[s].newkeys_at is not None and proto[s]._keyExchangeState == proto[s]._KEY_EXCHANGE_NONE
+
+        def idle():
+            return established("C") and established("S") and not link.enabled() and h.pending_verify is None
+
         remaining = nsend
+        refusals_left = nrefuse
+        undefined = set()                   # senders whose output stopped being predictable (a refused call was made into a packet)
         guard_steps = 0
         while True:
             guard_steps += 1
             sim.step(20000)
+            rekeyers = [s for s in ("C", "S") if h.rekeys_left and remaining and alive(s) and established(s)]
+            # a refused call: any time the connection is up; while a key exchange is in progress only with a message type that is sent
+            # straight away (others are put aside unseen until the key exchange ends - no call-time verdict to be had)
+            refusers = [s for s in ("C", "S") if refusals_left and remaining and alive(s) and tr[s].connected]
             ops = [("net", 10 if usable(link.enabled()) else 0),
                    ("sendC", 3 if (remaining and can_send("C")) else 0),
                    ("sendS", 3 if (remaining and can_send("S")) else 0),
                    ("verify", 4 if h.pending_verify is not None else 0),
-                   ("ignore", 1 if (remaining and not early_send and (can_send("C") or can_send("S"))) else 0)]
+                   ("ignore", 1 if (remaining and not early_send and (can_send("C") or can_send("S"))) else 0),
+                   ("rekey", 2 if rekeyers else 0),
+                   ("refuse", 1 if refusers else 0)]
             if not any(w for _, w in ops):
                 break
             op = sim.draw_weighted(ops, "op")
@@ -497,11 +569,69 @@ def run(sim):
                 with sim.guard("sendPacket-raised", s):
                     proto[s].sendIgnore(sim.draw_blob(sim.draw_int(0, 40, "n")))
                 maybe_tamper()
+            elif op == "rekey":
+                s = sim.draw_choice(rekeyers, "rekey_side")
+                o = "S" if s == "C" else "C"
+                how = "same-algorithms"
+                if renegotiate and sim.draw_bool(0.6, "change"):
+                    # both ends are reconfigured while nothing is in flight, so that the two KEXINITs of this exchange agree: let the
+                    # link drain first (under the tape's segmentation)
+                    while not idle() and alive(s):
+                        sim.step(20000)
+                        if h.pending_verify is not None:
+                            d, h.pending_verify = h.pending_verify, None
+                            sim.event("client", "host-key-verified")
+                            with sim.guard("transport-raised", "C-verify"):
+                                d.callback(True)
+                        elif not net_step():
+                            break
+                if renegotiate and idle() and alive(s) and established(s) and sim.draw_bool(0.8, "change2"):
+                    cipher2, mac2, comp2 = sim.draw_choice(CIPHERS, "cipher"), sim.draw_choice(MACS, "mac"), sim.draw_choice(COMPRESSIONS, "compression")
+                    for p in (client, server):
+                        p.supportedCiphers, p.supportedMACs, p.supportedCompressions = [cipher2], [mac2], [comp2]
+                    how = "/".join(x.decode() for x in (cipher2, mac2, comp2))
+                    sim.probe("rekey_renegotiates_algorithms")
+                crossing = proto[o]._keyExchangeState == proto[o]._KEY_EXCHANGE_REQUESTED
+                if crossing:
+                    sim.probe("rekey_requested_by_both_sides")
+                sim.event("client" if s == "C" else "server", "rekey", how, "crossing" if crossing else "-")
+                sim.fault("rekey")
+                h.rekeys_left -= 1
+                if h.newkeys_overtook_verify and not h.rekey_after_overtaken_verify:
+                    h.rekey_after_overtaken_verify = True
+                    sim.probe("rekey_after_newkeys_overtook_host_key_answer")
+                with sim.guard("transport-raised", s + "-rekey"):
+                    proto[s].sendKexInit()
+                maybe_tamper()
+            elif op == "refuse":
+                s = sim.draw_choice(refusers, "refuse_side")
+                p = proto[s]
+                refusals_left -= 1
+                in_kex = p._keyExchangeState != p._KEY_EXCHANGE_NONE
+                kind = sim.draw_choice(["str-payload", "none-payload"] + ([] if in_kex else ["msgnum-above-255", "msgnum-negative"]), "refusal")
+                mt = sim.draw_choice([transport.MSG_IGNORE, transport.MSG_DEBUG] if in_kex else [94, transport.MSG_IGNORE, 50, 255], "msgtype")
+                args = {"str-payload": (mt, "text"), "none-payload": (mt, None),
+                        "msgnum-above-255": (256 + sim.draw_int(0, 300, "above"), b"x"), "msgnum-negative": (-1 - sim.draw_int(0, 300, "below"), b"x")}[kind]
+                n0 = len(tr[s].writes)
+                try:
+                    p.sendPacket(*args)
+                    outcome = "accepted"
+                except Exception:
+                    outcome = "raised"
+                wrote = len(tr[s].writes) > n0
+                sim.event("client" if s == "C" else "server", "refused-call", kind, "in-kex" if in_kex else "-", outcome, "wrote" if wrote else "-")
+                if outcome == "raised":
+                    sim.fault("refused_" + kind)
+                elif wrote:
+                    undefined.add(s)            # the transport made a packet out of it: no telling what the peer should get
+                maybe_tamper()
             if remaining == 0 and not usable(link.enabled()) and h.pending_verify is None:
                 break
 
         # ------------------------------------------------------------ verdict
         kex_done = client.newkeys_at is not None and server.newkeys_at is not None
+        # the circumstance of the re-key finding (see RULE), read off the schedule only, names the verdicts of the runs that met it
+        circ = "+rekey-after-newkeys-overtook-host-key-answer" if h.rekey_after_overtaken_verify else ""
         if tam["want"] and tam["done"]:
             s = tam["dir"]
             r = "S" if s == "C" else "C"
@@ -509,8 +639,9 @@ def run(sim):
             # (no draws, no events: how long this takes depends on the key only for CBC first-block damage)
             filler = 0
             w0 = len(tr[s].written)
+            # (IGNORE may be sent in any key exchange state: the sender may be left waiting inside a re-key that the altered packet was part of)
             while (not tr[r].disconnecting and not tr[r].disconnected and not tr[s].disconnecting and not tr[s].disconnected
-                   and len(tr[s].written) - w0 < 1048576 + 70000 and proto[s]._keyExchangeState == proto[s]._KEY_EXCHANGE_NONE):
+                   and len(tr[s].written) - w0 < 1048576 + 70000):
                 proto[s].sendIgnore(FILLER)
                 filler += 1
                 if tr[s].out:
@@ -528,24 +659,27 @@ def run(sim):
             sim.check("tamper-detected", tr[r].disconnecting or tr[r].disconnected, tam["region"],
                       lambda: "one byte (offset %d, region %s) of a %d-byte MAC-protected packet was altered and the receiver did not disconnect (%s %s %s)"
                       % (tam["off"], tam["region"], tam["plen"], cipher.decode(), mac.decode(), comp.decode()))
-            sim.check("payloads-before-tamper", got == exp, tam["region"],
+            sim.check("payloads-before-tamper", got == exp or s in undefined, tam["region"] + circ,
                       lambda: "receiver dispatched %s; sent before the altered packet: %s" % (_brief(got), _brief(exp)))
             # the other direction: no verdict on completeness (the connection was torn down), but never anything unsent/reordered
             back = svc[s].got
-            sim.check("reverse-direction-prefix", back == sent[r][:len(back)], "tamper-run",
+            sim.check("reverse-direction-prefix", back == sent[r][:len(back)] or r in undefined, "tamper-run",
                       lambda: "dispatched %s is not a prefix of what the peer sent %s" % (_brief(back), _brief(sent[r])))
         else:
             for s, r in (("C", "S"), ("S", "C")):
-                sim.check("payloads-delivered", svc[r].got == sent[s], "to-" + ("server" if r == "S" else "client"),
-                          lambda: "sent %s; dispatched %s (kex_done=%s %s %s %s, sender disconnecting=%s receiver disconnecting=%s)"
+                if s in undefined:
+                    continue
+                sim.check("payloads-delivered", svc[r].got == sent[s], "to-" + ("server" if r == "S" else "client") + circ,
+                          lambda: "sent %s; dispatched %s (kex_done=%s %s %s %s, key exchanges completed: sender %d receiver %d, refused calls made %d, "
+                          "sender disconnecting=%s receiver disconnecting=%s)"
                           % (_brief(sent[s]), _brief(svc[r].got), kex_done, cipher.decode(), mac.decode(), comp.decode(),
-                             tr[s].disconnecting, tr[r].disconnecting))
+                             proto[s].newkeys_count, proto[r].newkeys_count, nrefuse - refusals_left, tr[s].disconnecting, tr[r].disconnecting))
             sim.check("key-exchange-completes", kex_done, "clean-run",
                       "nothing was altered, the link is quiescent, and the key exchange did not complete (client newkeys=%s server newkeys=%s)"
                       % (client.newkeys_at is not None, server.newkeys_at is not None))
-            sim.check("no-disconnect", not (link.a.disconnecting or link.b.disconnecting or link.a.disconnected or link.b.disconnected),
-                      "clean-run", "a side disconnected although nothing was altered")
-        sim.state((cipher.decode(), mac.decode(), comp.decode(), family, bool(tam["done"]), nbanner > 0))
+            sim.check("no-disconnect", not (link.a.disconnecting or link.b.disconnecting or link.a.disconnected or link.b.disconnected) or bool(undefined),
+                      "clean-run" + circ, "a side disconnected although nothing was altered")
+        sim.state((cipher.decode(), mac.decode(), comp.decode(), family, bool(tam["done"]), nbanner > 0, min(client.newkeys_count, 2)))
         dispatched = len(svc["C"].got) + len(svc["S"].got)
         sim.nontrivial = bool(kex_done and dispatched and sim.faults.get("segmentation", 0) and (family == "clean" or tam["done"]))
     finally:
@@ -558,8 +692,8 @@ def _brief(lst):
     return "[" + ", ".join("%d:%dB" % (mt, len(pl)) for mt, pl in lst[:12]) + (", ..." if len(lst) > 12 else "") + "]"
 
 
-# Sensitivity (tools/mutate.py C35 --sub src/twisted/conch/ssh/transport.py ..., run with VERIF_C35_AVOID=1 so that the
-# genuine identification findings do not answer for the mutant):
+# Sensitivity (tools/mutate.py C35 --sub src/twisted/conch/ssh/transport.py ...; the first twelve were tried while the identification
+# findings were still open, with every run kept away from their preconditions - see ALWAYS_AVOID):
 MUTANTS = [
     "getPacket: incomingPacketSequence not incremented -> CAUGHT (payloads-delivered / payloads-before-tamper)",
     "makeMAC and verify both computed over packet[:-1] (last padding byte outside the MAC) -> CAUGHT (tampered-payload-not-dispatched / tamper-detected)",
@@ -575,4 +709,12 @@ MUTANTS = [
     "dataReceived: otherVersionString cut at the first space (comment dropped) -> CAUGHT (version-exchange:*-after-ident; needs own version strings with a comment)",
     "dataReceived: protocol version taken from the second-to-last '-' field -> CAUGHT (version-exchange:*-after-ident; needs '-' in software version/comment)",
     "dataReceived: leftover .lstrip()ped -> not caught, equivalent (the leftover starts with the 0x00 of a packet length)",
+    "_newKeys: deflate stream kept across key exchanges while the inflater is restarted (seeded C35-r5a) -> CAUGHT (payloads-delivered / "
+    "no-disconnect / payloads-before-tamper; needs zlib and a re-key followed by a payload)",
+    "_newKeys: inflater kept across key exchanges while the deflate stream is restarted (mirror of r5a) -> CAUGHT (payloads-delivered / no-disconnect)",
+    "_newKeys: outgoingCompression cleared when the new outgoing compression is 'none', incomingCompression left alone -> CAUGHT "
+    "(payloads-delivered / no-disconnect; needs a re-key that renegotiates zlib -> none)",
+    "_newKeys: outgoingPacketSequence reset to 0 -> CAUGHT (payloads-delivered, already at the initial key exchange)",
+    "sendPacket: sequence number consumed before the packet is built (seeded C35-r5b) -> CAUGHT (payloads-delivered / no-disconnect; needs a "
+    "refused call followed by a payload)",
 ]
